@@ -420,6 +420,22 @@ def eval_show(prop, name, imports, run_fn, case_type, case_term, timeout=600, ex
     return out[-6000:]
 
 
+def eval_diff(prop, name, imports, run_fn, case_type, case_term, timeout=600):
+    """positions (in the top-level observation list) where model and implementation differ, for one case"""
+    d = os.path.join(BUILD, prop, name + "_diff")
+    shutil.rmtree(d, ignore_errors=True)
+    os.makedirs(d)
+    fn = os.path.join(d, "diff.v")
+    defs, body = intern_literals(case_term)
+    with open(fn, "w") as f:
+        f.write(imports + "\nImport ListNotations.\nOpen Scope N_scope.\n" + defs)
+        f.write(f"Definition c : ({case_type}) * obs := {body}.\n")
+        f.write(f"Eval vm_compute in (obs_diff (({run_fn}) (fst c)) (snd c)).\n")
+    rc, out = run(["coqc"] + COQ_ARGS + [fn], timeout, cwd=d)
+    nums = _parse_nums(out)
+    return nums[0] if nums else None
+
+
 # ---------------------------------------------------------------------------
 # shrinking
 
